@@ -18,10 +18,10 @@ class SymRandom(object):
     self.prefix = prefix
   def randint(self, a, b):
     a = int(a); b = int(b)
-    return a + choose(self.prefix + '_randint', b - a + 1)
+    return a + choose(self.prefix + '_randint', b - a + 1, inner=True)
   def choice(self, seq):
     seq = list(seq)
-    return seq[choose(self.prefix + '_choice', len(seq))]
+    return seq[choose(self.prefix + '_choice', len(seq), inner=True)]
   def shuffle(self, seq):
     return None       # identity permutation: the properties checked are order independent
   def random(self):
